@@ -96,19 +96,15 @@ def build_world(modules=None):
     w.axioms.extend(AXIOMS)
     w.tuple_records = {'RefStruct': ['kind', 'children', 'datatype', 'longname', 'table', 'maxlen'],
                        'ChildEntry': ['name', 'ref', 'card', 'kind']}
-    # data invariant of the structure tables (checked row by row by the ground pass tables:twf_*): a reference is a
-    # 2-tuple ('sequence', children) or a 6-tuple ('leaf', children-or-None, datatype, long name, table, max length)
-    def refstruct_inv(ex, st, term):
-        import z3
-        ln = ex.H(st, w.field_key('RefStruct', '_len'))[term]
-        return [z3.Or(ln == 2, ln == 6)]
+    # data invariant of the structure tables (checked entry by entry by the ground pass tables:twf_groups): a GRP child
+    # entry carries its group's reference, a tuple of at least two items (kind, children)
     def childentry_inv(ex, st, term):
-        # a GRP entry carries its group's reference (ground pass tables:twf_groups checks every message structure)
         import z3
         kind = ex.H(st, w.field_key('ChildEntry', 'kind'))[term]
         ref = ex.H(st, w.field_key('ChildEntry', 'ref'))[term]
-        return [z3.Implies(kind == z3.StringVal('GRP'), ref > 0)]
-    w.class_invariants = {'RefStruct': refstruct_inv, 'ChildEntry': childentry_inv}
+        ln = ex.H(st, w.field_key('RefStruct', '_len'))
+        return [z3.Implies(kind == z3.StringVal('GRP'), z3.And(ref > 0, ln[ref] >= 2))]
+    w.class_invariants = {'ChildEntry': childentry_inv}
     w.property_funcs = dict(PROPERTY_FUNCS)
     w.assumed_funcs = dict(ASSUMED_FUNCS)
     from pyvc import regex
